@@ -16,7 +16,7 @@
 //   killbefore K | killafter K      K-th mutating call (1-based)
 //   cloneok
 //   sched SEED MODE DEPTH           MODE delay|pct
-//   stall SYS USEC | stallp SYS PATH USEC
+//   stall SYS USEC | stallp SYS PATH USEC | stallo SYS PATH OFF USEC  (only calls at file offset OFF)
 //   timeout MS
 #define _GNU_SOURCE
 #include <errno.h>
@@ -173,6 +173,9 @@ static void load_plan(const char *file) {
     } else if (!strcmp(k, "fail") && c == 5) {
       struct rule *r = &R[nR++]; r->kind = 'f'; r->sd = byname(s); strcpy(r->path, p); r->off = -1;
       r->nth = !strcmp(o, "*") ? -1 : atol(o); r->val = atol(n);
+      if (!r->sd) { fprintf(stderr, "sup: unknown syscall %s\n", s); exit(2); }
+    } else if (!strcmp(k, "stallo") && c == 5) {      // stallo SYS PATH OFF USEC : stall only calls on PATH at file offset OFF
+      struct rule *r = &R[nR++]; r->kind = 's'; r->sd = byname(s); strcpy(r->path, p); r->off = atol(o); r->nth = -1; r->val = atol(n);
       if (!r->sd) { fprintf(stderr, "sup: unknown syscall %s\n", s); exit(2); }
     } else if (!strcmp(k, "stallp") && c == 4) {      // stallp SYS PATH USEC : stall only calls on PATH
       struct rule *r = &R[nR++]; r->kind = 's'; r->sd = byname(s); strcpy(r->path, p); r->off = -1; r->nth = -1; r->val = atol(o);
